@@ -259,9 +259,12 @@ func errText(err error) string {
 func (s xferSpec) judge(res *xferResult, env *cliEnv) (outcome, bad, key string) {
 	wantN, wantErr, wantOff := s.expected()
 	gotErr := errText(res.err)
-	outcome = fmt.Sprintf("n=%d err=%q off=%d consumed=%d data=%q peer=%q wire=[%s]", res.n, gotErr, res.offAfter, res.consumed, res.data[:min(int(res.n), len(res.data))], res.peerFile, env.peer.wireString())
+	outcome = fmt.Sprintf("n=%d err=%q off=%d consumed=%d data=%q peer=%q wire=[%s]", res.n, gotErr, res.offAfter, res.consumed, res.data[:max(0, min(int(res.n), len(res.data)))], res.peerFile, env.peer.wireString())
 	fail := func(k, f string, a ...any) (string, string, string) {
 		return outcome, fmt.Sprintf("%s: ", s) + fmt.Sprintf(f, a...) + "\n  " + outcome, "xfer-" + k + ":" + s.api + ":conc=" + strconv.FormatBool(s.conc)
+	}
+	if res.n < 0 || int(res.n) > max(len(res.data), s.reqLen, s.fileLen) {
+		return fail("count", "returned count %d is outside the request", res.n)
 	}
 	if len(env.peer.Bad) > 0 {
 		return fail("peer", "peer observed protocol violation: %v", env.peer.Bad)
@@ -421,15 +424,16 @@ func runMulti(c *reg.Ctx, prop string, strategy string, bound int, specs []xferS
 
 func c13Specs(tier, group string) []xferSpec {
 	var out []xferSpec
+	off := 0
 	add := func(api string, conc bool, m int, partial bool, K int, fail []int) {
 		req := m * 2
 		if partial {
 			req--
 		}
-		s := xferSpec{api: api, conc: conc, P: 2, K: K, fileLen: req + 3, reqLen: req, fail: fail, permute: true, cut: -1}
+		s := xferSpec{api: api, conc: conc, P: 2, K: K, fileLen: req + 3 + off, reqLen: req, off: off, fail: fail, permute: true, cut: -1}
 		switch api {
 		case "WriteTo":
-			s.fileLen = req // the transfer is the whole file
+			s.fileLen = req + off // the transfer is the rest of the file
 		case "WriteAt", "Write", "ReadFrom", "ReadFromC":
 			s.fileLen = 0
 		}
@@ -451,6 +455,21 @@ func c13Specs(tier, group string) []xferSpec {
 			for _, partial := range []bool{false, true} {
 				for i := 0; i < m; i++ {
 					add(a.api, a.conc, m, partial, 2, []int{i})
+				}
+				// the same transfers started at a non-zero position (counts and offsets are relative to it)
+				if m == 3 || tier == "thorough" {
+					offs := []int{1}
+					if tier == "thorough" {
+						offs = []int{1, 5}
+					}
+					for _, off = range offs {
+						for i := 0; i < m; i++ {
+							if tier == "thorough" || i != 1 || partial {
+								add(a.api, a.conc, m, partial, 2, []int{i})
+							}
+						}
+					}
+					off = 0
 				}
 				if tier == "thorough" || m == 3 {
 					for i := 0; i < m; i++ {
@@ -502,13 +521,14 @@ func init() {
 					js = append(js, reg.Job{Part: "C13/faults", Build: "instr", Args: map[string]string{"api": a, "bound": "3"}, Shards: 16, BudgetS: 420, Label: a + " m=2..4 single+pair faults db3"})
 				}
 				js = append(js, reg.Job{Part: "C13/faults", Build: "instr", Args: map[string]string{"eof": "1", "bound": "3"}, Shards: 16, BudgetS: 300, Label: "EOF inside request + failing chunk db3"})
+				js = withPolicies(tier, js, func(reg.Job) bool { return true })
 				js = append(js, reg.Job{Part: "C13/faults", Build: "instr", Args: map[string]string{"api": "ReadAt", "strategy": "por"}, Shards: 16, BudgetS: 600, Label: "ReadAt por", Optional: true})
 				return js
 			}
-			return []reg.Job{
+			return withPolicies(tier, []reg.Job{
 				{Part: "C13/faults", Build: "instr", Args: map[string]string{"bound": "2"}, Shards: 16, BudgetS: 100, Label: "all APIs m=3 single+pair faults db2"},
 				{Part: "C13/faults", Build: "instr", Args: map[string]string{"eof": "1", "bound": "2"}, Shards: 16, BudgetS: 60, Label: "EOF inside request + failing chunk db2"},
-			}
+			}, func(reg.Job) bool { return true })
 		},
 	})
 }
